@@ -10,11 +10,11 @@ THEOREMS = {
     "C04": ["Cntgs.C04.fields_ordered", "Cntgs.C04.span_sizes", "Cntgs.C04.element_extent", "Cntgs.C04.first_field_at_element_start"],
     "C13": ["Cntgs.C13.ne_is_negation", "Cntgs.C13.elem_eq_iff_content", "Cntgs.C13.elem_eq_false_if_fixed_sizes_differ",
             "Cntgs.C13.elem_eq_refl", "Cntgs.C13.elem_eq_symm", "Cntgs.C13.memcmp_run_is_fieldwise",
-            "Cntgs.C13.vec_eq_iff_content_elementwise", "Cntgs.C13.vec_eq_fastpath_needs_equal_fixed_sizes",
+            "Cntgs.C13.vec_eq_iff_content_elementwise", "Cntgs.C13.vec_eq_iff_content_fastpath", "Cntgs.C13.vec_eq_fastpath_needs_equal_fixed_sizes",
             "Cntgs.C13.elem_eq_iff_content_generic", "Cntgs.C13.vec_eq_needs_equal_size", "Cntgs.C13.vec_eq_empty",
             "Cntgs.encode_inj", "Cntgs.runs_ok"],
     "C14": ["Cntgs.C14.elem_operators", "Cntgs.C14.vec_operators", "Cntgs.C14.elem_lt_strict", "Cntgs.C14.vec_lt_irrefl_asymm",
-            "Cntgs.C14.vec_lt_trans_fastpath", "Cntgs.C14.vec_lt_not_transitive", "Cntgs.C14.vec_lt_is_lexicographical"],
+            "Cntgs.C14.vec_lt_trans_fastpath", "Cntgs.C14.vec_lt_not_transitive", "Cntgs.C14.vec_lt_is_lexicographical", "Cntgs.C14.vec_lt_fastpath_is_lexicographical"],
     "C15": ["Cntgs.C15.toInt_mod", "Cntgs.C15.memcpy_sound", "Cntgs.C15.stored_is_converted", "Cntgs.C15.lvalue_not_moved",
             "Cntgs.C15.rvalue_moved"],
     "C11": ["Cntgs.C11.assign_copies_all_fields", "Cntgs.C11.copy_assign_keeps_source", "Cntgs.C11.move_assign_source",
